@@ -295,11 +295,11 @@ impl Check for C12 {
         CheckInfo {
             id: "C12",
             level: "model_checking",
-            rule: "14 workflows (sequential, branches, catches, parallel / sequence / block generators, parked branches, env, propagating variables, hooks + catch + timeout, declared outputs with a conditional step, one action writing variables of two enclosing tasks) x client scripts (complete everything; one action replaced by error / skip / submit at each position) x both stores; for every quiescent point q of the uninterrupted run A (every pair q1 < q2 in thorough) a run B repeats A's choices up to q, evicts the process from the cache (in-memory store; in a second variant a bystander process then runs to its end, so that the evicted process comes back through the cache refill instead of the client's action) or starts a new engine on the same SQLite file, and continues with the same client operations; B's messages after q (ids, times erased), client results, terminal event and final task outcomes must equal A's".into(),
+            rule: "14 workflows (sequential, branches, catches, parallel / sequence / block generators, parked branches, env, propagating variables, hooks + catch + timeout, declared outputs with a conditional step, one action writing variables of two enclosing tasks) x client scripts (complete everything; one action replaced by error / skip / submit at each position) x both stores; for every quiescent point q of the uninterrupted run A (in thorough: every non-empty subset of the quiescent points) a run B repeats A's choices up to q, evicts the process from the cache (in-memory store; in a second variant a bystander process then runs to its end, so that the evicted process comes back through the cache refill instead of the client's action) or starts a new engine on the same SQLite file, and continues with the same client operations; B's messages after q (ids, times erased), client results, terminal event and final task outcomes must equal A's".into(),
             assumptions: vec!["FIFO order of queued engine work in both runs (the differential needs one schedule; other schedules are the subject of C01-C08)".into()],
             budget_s: tier.pick(50, 900),
             exhaustive_when_uncapped: true,
-            bounds: json!({"crash_points_per_run": tier.pick("every single quiescent point", "every single point and every pair"), "client_operations": 12}),
+            bounds: json!({"crash_points_per_run": tier.pick("every single quiescent point", "every non-empty subset of the quiescent points (runs with more than 8 points: subsets of at most 3)"), "client_operations": 12}),
         }
     }
     fn items(&self, tier: Tier) -> Vec<Value> {
@@ -318,11 +318,16 @@ impl Check for C12 {
         let n = a.quiescent_points;
         let mut points: Vec<Vec<usize>> = (0..n).map(|q| vec![q]).collect();
         if tier == Tier::Thorough {
-            for q1 in 0..n {
-                for q2 in (q1 + 1)..n {
-                    points.push(vec![q1, q2]);
+            // every subset of the quiescent points (the closure of "several in one run"); beyond 8 points
+            // the subsets of at most three
+            points.clear();
+            let full = n <= 8;
+            for mask in 1u32..(1u32 << n.min(20)) {
+                if full || mask.count_ones() <= 3 {
+                    points.push((0..n).filter(|q| mask & (1 << q) != 0).collect());
                 }
             }
+            points.sort_by_key(|p| (p.len(), p.clone()));
         }
         let mut seen = std::collections::BTreeSet::new();
         for p in &points {
